@@ -404,7 +404,7 @@ def contact_op(E, env1, tol):
 
     def visit(n, e, path):
         if n["t"] in rg.LEAVES:
-            found.append((float(rg.leaf_contains_bdist(n, e)[1][0]), path))
+            found.append((float(rg.leaf_contains_bdist(n, e)[1][0]), path, n["t"]))
         elif n["t"] in ("translate", "rotate"):
             visit(n["a"], rg.pull_back(n, e), path)
         else:
@@ -423,4 +423,7 @@ def contact_op(E, env1, tol):
     # "~" marks a row that is only within rounding of the shared piece (float32 coordinates of a point on a
     # slanted edge): which side of the two coinciding lines it is on depends on the last bit
     exact = found[1][0] <= 1e-12 * max(1.0, float(np.max(np.abs(np.asarray(env1[rg.space_vars(A)[0][0]])))))
-    return (op or "?") + ("+contact" if exact else "+contact~")
+    # ShapelyPolygon / TrimeshPolyhedron membership does not count points of the polygon's own boundary as
+    # inside (shapely `contains`), so a piece shared with such an operand is a contact defect even when exact
+    poly = "-poly" if (found[0][2] in ("poly", "mesh") or found[1][2] in ("poly", "mesh")) else ""
+    return (op or "?") + ("+contact" if exact else "+contact~") + poly
